@@ -149,6 +149,7 @@ def _stage(draw, idx, ctr, kinds):
         'grp_unsafe': False,
         'writes': w, 'tags': tags,
         'alias': draw(st.integers(0, 2)) == 0,
+        'alias2': draw(st.integers(0, 2)) == 0,
         'order': draw(st.permutations(sorted(k for k in w if k not in ('g1', 'gd')) + ['grp'])),
     }
 
@@ -163,7 +164,13 @@ def _case(draw):
     # a small number of taint sources per case, so that clean dynamic nodes still execute next to the tainted ones
     for _ in range(draw(st.sampled_from([0, 1, 1, 1, 2, 2, 3]))):
         s_ = stages[draw(st.integers(0, n - 1))]
-        what = draw(st.sampled_from(['source', 'source', 'root', 'grp', 'node', 'node', 'node', 'arg', 'arg', 'chain-end', 'chain-end', 'alias-src', 'alias-retarget', 'fstr']))
+        what = draw(st.sampled_from(['source', 'source', 'root', 'grp', 'node', 'node', 'node', 'arg', 'arg', 'chain-end', 'chain-end', 'alias-src', 'alias-retarget', 'alias-data', 'alias-data', 'fstr']))
+        if what == 'alias-data':
+            # (unsafety inherited from the group or the document root - a tag on the aliased node itself is part of what the alias repeats)
+            cands = [st_ for st_ in stages if st_.get('alias2') and st_['writes'].get('gd', ['x'])[0] in ('lit', 'map')]
+            if cands:
+                cands[draw(st.integers(0, len(cands) - 1))][draw(st.sampled_from(['grp_unsafe', 'grp_unsafe', 'root_unsafe']))] = True
+            continue
         if what == 'alias-retarget':
             # a stage after the one that re-uses grp.g1 through an alias gives grp.g1 another target - from an unsafe source
             firsts = [i for i, st_ in enumerate(stages) if st_.get('alias') and st_['writes'].get('g1', ['x'])[0] in ('call', 'bind')]
@@ -321,6 +328,17 @@ def stage_doc(stage):
                     kv[1]['anchor'] = 'g1a'
             tgt = items[later[0]]
             tgt['items'] = list(tgt['items']) + [['fz', {'t': 'alias', 'name': 'g1a'}]]
+    # ... and the same for the data written at grp.gd: its content is used again, through an alias, as an argument of a later function node
+    # (content written by unsafe content stays so wherever an alias puts it)
+    if stage.get('alias2') and 'gd' in stage['writes'] and stage['writes']['gd'][0] in ('lit', 'map'):
+        order = list(stage['order'])
+        later = [k for k in order[order.index('grp') + 1:] if k in ('n1', 'n2') and k in items and stage['writes'][k][0] in ('call', 'bind', 'args')]
+        if later:
+            for kv in grp:
+                if kv[0] == 'gd':
+                    kv[1]['anchor'] = 'd1a'
+            tgt = items[later[0]]
+            tgt['items'] = list(tgt['items']) + [['dz', {'t': 'alias', 'name': 'd1a'}]]
     out = []
     for k in stage['order']:
         if k == 'grp':
@@ -500,6 +518,8 @@ def run_case(case):
         labels.add('lazy-include(!rec)')
     if any('*g1a' in t for t in texts):
         labels.add('aliased-dynamic-node')
+    if any('*d1a' in t for t in texts):
+        labels.add('aliased-data')
     touched = {}
     for s_ in stages:
         for k in s_['writes']:
